@@ -102,7 +102,8 @@ def runRedef (fl : Flags) (b : Block) : Res :=
       if l.name ≠ "" then s.1.name == l.name && s.1.ty == l.ty else s.1.name == "" && s.1.ty == l.ty)
     let outRejected := !outputsPass sc.env target fout
     let p08 : Option String :=
-      if outRejected then (if rdres = ["err", "outfilter"] then none else some s!"output_rejected_by_filter_but_{noSpace (showImplRedef rdres)}")
+      if (kv b.head "subs").getD "false" == "true" then none   -- subtype labels: outside the premise of C08
+      else if outRejected then (if rdres = ["err", "outfilter"] then none else some s!"output_rejected_by_filter_but_{noSpace (showImplRedef rdres)}")
       else if rdres = ["err", "outfilter"] then some "outputs_pass_but_rejected"
       else match declared.find? (fun l => !passes l) with
         | some l => some s!"declared_input_{showLabel l}_violates_the_input_filter"
